@@ -26,6 +26,8 @@ def mutants():
         if os.path.exists(ip):
             idx = json.load(open(ip))
         out[mid] = (p, REVERT_PROPS.get(mid) or idx.get(mid) or ALL)
+    for p in sorted(glob.glob(os.path.join(ROOT, 'selftest', 'preserving', '*.patch'))):
+        out[os.path.basename(p)[:-6]] = (p, ALL)      # behaviour-preserving edits: every check must stay silent
     return out
 
 
@@ -61,7 +63,9 @@ def main():
     allp = '--all-props' in sys.argv
     tier = 'thorough' if '--thorough' in sys.argv else 'quick'
     ms = mutants()
-    ids = args or sorted(ms)
+    ids = args or sorted(i for i in ms if not i.startswith('bp-'))
+    if '--preserving' in sys.argv:
+        ids = sorted(i for i in ms if i.startswith('bp-'))
     os.makedirs(SCR, exist_ok=True)
     results = {}
     with ThreadPoolExecutor(int(os.environ.get('MUT_PAR', '3'))) as ex:
